@@ -3,3 +3,10 @@ package sim
 import "encoding/xml"
 
 func xmlMarshalImpl(v interface{}) ([]byte, error) { return xml.Marshal(v) }
+
+func btoi(b bool) int {
+	if b {
+		return 1
+	}
+	return 0
+}
